@@ -247,3 +247,49 @@ func VH_C08_Ctor(p []int) {
 	verifAssert(s.Len() == 1, "push1")
 	verifReach("end")
 }
+
+// Part (b): every method that takes values, with the catalogue of awkward Go
+// values (typed nils, zero structs, funcs, chans, maps, NaN, private-field
+// structs, pointers to pointers), on an initialised receiver.
+// p: method index, variant, kind (0 AND, 1 LIST), max variadic length
+func VH_C08_StackValues(p []int) {
+	m := vhAutoStack[p[0]]
+	verifCase(m.name)
+	s, cfg := vhRich(p[1], 0)
+	if p[2] == 0 {
+		verifAssume(cfg.typ == and)
+	} else {
+		verifAssume(cfg.typ == list)
+	}
+	vhVarMax = p[3]
+	h := s
+	_ = m.callS(&h)
+	if m.name != "Stack.Free" {
+		verifAssert(h.stack == s.stack, "handle")
+	}
+	// the stack stays initialised and usable
+	vhInv(s, cfg, "inv")
+	k := s.Kind()
+	verifAssert(k != badStack, "kind-readable")
+	n := s.Len()
+	for i := 0; i < n; i++ {
+		s.Index(i)
+	}
+	_ = s.String()
+	verifReach("end")
+}
+
+// p: method index, variant, max variadic length
+func VH_C08_CondValues(p []int) {
+	m := vhAutoCond[p[0]]
+	verifCase(m.name)
+	c := vhRichCond(p[1], 0)
+	vhVarMax = p[2]
+	h := c
+	_ = m.callC(&h)
+	verifAssert(c.IsInit(), "still-init")
+	_ = c.String()
+	_ = c.Valid()
+	_, _ = c.Unmarshal()
+	verifReach("end")
+}
